@@ -14,7 +14,8 @@ RULE = ('histories of export / re-export (another object at an exported path) / 
         'never-exported paths; objects are of three classes (one interface; two interfaces incl. a non-emitting typed '
         'property, and false in a boolean context through __len__; a subclass that adds a property to the inherited interface and brings a second interface) with '
         'readable, read-write and write-only properties assigned before export; a path that was unexported is exported '
-        'again either with a fresh object or with the very instance that was there before. After EVERY step and for EVERY pool path three parsed messages are sent: an '
+        'again either with a fresh object or with the very instance that was there before; properties (announcing and silent) '
+        'of exported objects change afterwards (setprop). After EVERY step and for EVERY pool path three parsed messages are sent: an '
         'ordinary call, Introspect, GetManagedObjects. enum: all histories to 4 (quick) / 5 (thorough) steps over a '
         '6-path pool, exhaustive; random: to 30 steps over the full pool. oracle (set model): ordinary call is '
         'UnknownObject iff the path is not exported; Introspect lists exactly the first path segments of exported '
@@ -98,10 +99,11 @@ def _call(MSG, h, conn, path, iface, member, serial):
 
 
 def _expected_props(model_obj):
-    variant, stamp, path = model_obj
-    want = {'org.verif.T1': {'Ro': ['s', 'ro-%s-%d' % (path, stamp)], 'Rw': ['i', stamp]}, PROPS: {}}
+    variant, stamp, path = model_obj[:3]
+    changed = model_obj[3] if len(model_obj) > 3 else {}
+    want = {'org.verif.T1': {'Ro': ['s', 'ro-%s-%d' % (path, stamp)], 'Rw': ['i', changed.get('Rw', stamp)]}, PROPS: {}}
     if variant >= 1:
-        want['org.verif.T2'] = {'Num': ['u', stamp + 1000], 'Quiet': ['q', stamp + 7]}
+        want['org.verif.T2'] = {'Num': ['u', stamp + 1000], 'Quiet': ['q', changed.get('Quiet', stamp + 7)]}
     if variant == 2:
         want['org.verif.T1']['Late'] = ['s', 'late-%d' % stamp]
     return want
@@ -118,20 +120,36 @@ def run_history(case):
         model = {}     # path -> (variant, stamp, path)
         live = {}      # path -> (instance, variant, stamp) currently exported
         parked = {}    # path -> (instance, variant, stamp) last unexported from that path
+        parked_changes = {}
         serial = 10
         paths = case['pool'] + NEVER
         for si, op in enumerate(case['ops']):
             kind = op[0]
             path = case['pool'][op[1] % len(case['pool'])]
             del conn.sent[:]
-            if kind == 'export':
+            if kind == 'setprop':
+                # a property of an exported object changes afterwards - one that announces changes (Rw) or one that does
+                # not (Quiet): what GetManagedObjects reports is the object's current state, not its state at export
+                if path not in model:
+                    continue
+                obj, variant, stamp = live[path]
+                name = 'Quiet' if (op[2] % 2 and variant >= 1) else 'Rw'
+                value = 500 + si
+                setattr(obj, name, value)
+                ch = dict(model[path][3]) if len(model[path]) > 3 else {}
+                ch[name] = value
+                model[path] = (model[path][0], model[path][1], model[path][2], ch)
+                del conn.sent[:]
+            elif kind == 'export':
                 variant = op[2] % 3
                 stamp = si
                 if len(op) > 3 and op[3] and path in parked and path not in model:
                     # the very instance that was exported and unexported before goes back
                     obj, variant, stamp = parked.pop(path)
+                    kept = parked_changes.pop(path, {})      # the instance comes back as it was left
                 else:
                     obj = _new_obj(classes, path, variant, si)
+                    kept = {}
                 live[path] = (obj, variant, stamp)
                 del conn.sent[:]
                 try:
@@ -139,7 +157,7 @@ def run_history(case):
                 except Exception as e:
                     out.append(Disc(exc_key(e, 'export.raises'), exc_detail(e)))
                     break
-                model[path] = (variant, stamp, path)
+                model[path] = (variant, stamp, path, kept)
                 sigs = list(conn.sent)
                 ok = False
                 if len(sigs) == 1:
@@ -152,7 +170,7 @@ def run_history(case):
                         ok = False
                 if not ok:
                     out.append(Disc('signal.InterfacesAdded', 'export %s: %r' % (path, [_desc(m) for m in sigs])))
-            else:
+            elif kind == 'unexport':
                 if path not in model:
                     continue
                 try:
@@ -160,8 +178,10 @@ def run_history(case):
                 except Exception as e:
                     out.append(Disc(exc_key(e, 'unexport.raises'), exc_detail(e)))
                     break
-                variant = model.pop(path)[0]
+                gone = model.pop(path)
+                variant = gone[0]
                 parked[path] = live.pop(path)
+                parked_changes[path] = gone[3] if len(gone) > 3 else {}
                 sigs = list(conn.sent)
                 ok = False
                 if len(sigs) == 1:
@@ -279,8 +299,10 @@ def classify(case):
         p = case['pool'][op[1] % len(case['pool'])]
         if op[0] == 'export':
             exported.add(p)
-        else:
+        elif op[0] == 'unexport':
             exported.discard(p)
+        elif p in exported:
+            labels.append('property_changed_after_export')
         for a in exported:
             for b in exported:
                 if a != b and b.startswith(a) and a != '/' and not _is_under(b, a):
@@ -336,11 +358,20 @@ def enum_histories(tier):
                     yield {'pool': SMALL, 'ops': [[k, i, (i + idx) % 3, 1] for idx, (k, i) in enumerate(seq)]}
 
 
+def enum_setprop(tier):
+    """Parent and child exported, a property of the child (announcing or silent) changed afterwards, parent queried."""
+    for variant in (0, 1, 2):
+        for which in (0, 1):
+            for tail in ([], [['export', 0, 0]], [['unexport', 1, 0], ['export', 1, variant, 1]]):
+                yield {'pool': SMALL, 'ops': [['export', 0, 0], ['export', 1, variant], ['setprop', 1, which]] + tail +
+                       [['setprop', 1, which]]}
+
+
 @st.composite
 def random_history(draw, tier):
     ops = []
     for _ in range(draw(st.integers(1, 30))):
-        ops.append([draw(st.sampled_from(['export', 'export', 'unexport'])), draw(st.integers(0, len(POOL) - 1)),
+        ops.append([draw(st.sampled_from(['export', 'export', 'export', 'unexport', 'unexport', 'setprop'])), draw(st.integers(0, len(POOL) - 1)),
                     draw(st.integers(0, 2)), draw(st.integers(0, 1))])
     return {'pool': POOL, 'ops': ops}
 
@@ -349,6 +380,8 @@ SUBCHECKS = [
     Subcheck('enum', run_history, classify, enumerate=enum_histories, shards={'quick': 8, 'thorough': 16},
              exhaustive_note='all admissible export/unexport histories of length <=4 (quick) / <=5 (thorough) over the '
                              '6-path pool, each queried at every path after every step'),
+    Subcheck('setprop', run_history, classify, enumerate=enum_setprop, shards={'quick': 2, 'thorough': 2},
+             exhaustive_note='3 object classes x {announcing, silent} property changed after export x 3 continuations'),
     Subcheck('random', run_history, classify, strategy=lambda tier: random_history(tier),
              n={'quick': 60, 'thorough': 600}),
 ]
